@@ -436,6 +436,15 @@ package keeper
 //@   ensures forall i: int :: {vestingTypes.VestingTypes[i]} 0 <= i && i < len(vestingTypes.VestingTypes) ==>
 //@     $vtFound[vestingTypes.VestingTypes[i].Name] && $vtLockup[vestingTypes.VestingTypes[i].Name] == vestingTypes.VestingTypes[i].LockupPeriod
 //@     && $vtVesting[vestingTypes.VestingTypes[i].Name] == vestingTypes.VestingTypes[i].VestingPeriod && $vtFree[vestingTypes.VestingTypes[i].Name] == vestingTypes.VestingTypes[i].Free
+//@ func (k Keeper) SetVestingType(ctx, vestingType)
+//@   trusted
+//@   modifies $vtFound, $vtFree, $vtLockup, $vtVesting
+//@   ensures $vtFound == store(old($vtFound), vestingType.Name, true) && $vtFree == store(old($vtFree), vestingType.Name, vestingType.Free)
+//@     && $vtLockup == store(old($vtLockup), vestingType.Name, vestingType.LockupPeriod) && $vtVesting == store(old($vtVesting), vestingType.Name, vestingType.VestingPeriod)
+//@ func (k Keeper) RemoveVestingType(ctx, name)
+//@   trusted
+//@   modifies $vtFound
+//@   ensures $vtFound == store(old($vtFound), name, false)
 //@ func (k Keeper) SetVestingAccountTraceCount(ctx, count)
 //@   trusted
 //@ func (k Keeper) GetVestingAccountTraceCount(ctx) (count)
